@@ -98,14 +98,34 @@ def check_class(ctx, cls_fq, spec):
                 if isinstance(n, ast.Call) and call_name(n) == 'setattr' and len(n.args) >= 2 \
                         and isinstance(n.args[1], ast.Constant) and n.args[1].value == lock_field:
                     writers.append((m, n, n.args[2] if len(n.args) > 2 else None))
+    # callers of each method inside the class (self.<name>(...) call sites)
+    callers = {}
+    for c in prog.mro(ci):
+        if not hasattr(c, 'members'):
+            continue
+        for mm in c.members.values():
+            if isinstance(mm, FuncInfo):
+                for n2 in ast.walk(mm.node):
+                    if isinstance(n2, ast.Call) and isinstance(n2.func, ast.Attribute) and \
+                            isinstance(n2.func.value, ast.Name) and n2.func.value.id == 'self':
+                        callers.setdefault(n2.func.attr, set()).add(mm.name)
+
+    def only_from_init(name, seen=()):
+        """True iff `name` is __init__ or a private helper reachable only from __init__."""
+        if name == '__init__':
+            return True
+        if not is_private(name) or name in seen:
+            return False
+        cs = callers.get(name, set())
+        return bool(cs) and all(only_from_init(c2, seen + (name,)) for c2 in cs)
     for m, n, val in writers:
-        ok = (m.name == '__init__')
+        ok = only_from_init(m.name)
         ctx.ob('T6f', '%s.%s' % (m.module.name, m.qualname),
                'the lock field `%s` is assigned only during construction' % lock_field,
                ok, loc='%s:%d' % (m.module.relpath, n.lineno),
-               detail='' if ok else 'replacing the lock while another thread holds the old one voids mutual exclusion')
-        if ok:
-            lock_ctors.append((m, n, val))
+               detail='' if ok else 'replacing the lock while another thread holds or waits for the old one '
+               'voids mutual exclusion (reachable from: %s)' % sorted(callers.get(m.name, {m.name})))
+        lock_ctors.append((m, n, val))
     if not lock_ctors:
         raise AnalysisError('no assignment of %s.%s found in __init__' % (cls_fq, lock_field))
 
